@@ -518,6 +518,16 @@ class Walker:
   def ev_Lambda(self, e, st):
     return self.sym("lambda")
 
+  def ev_Yield(self, e, st):
+    v = self.ev(e.value, st) if e.value is not None else Const(None)
+    self.emit("yield", e, st, value=v)
+    return Const(None)
+
+  def ev_YieldFrom(self, e, st):
+    v = self.ev(e.value, st)
+    self.emit("yield", e, st, value=v, star=True)
+    return Const(None)
+
   def ev_Starred(self, e, st):
     return mk("star", as_poly(self.ev(e.value, st)))
 
